@@ -492,11 +492,11 @@ fn free_strategy() -> impl Strategy<Value = FreeCase> {
 pub fn run_free(case: &FreeCase) -> CaseOutcome {
     // free-running threads: not a pure function of the case; while a failure is being confirmed the case is repeated
     let mut last = run_free_once(case);
-    for _ in 1..crate::driver::free_reps() {
-        if last.1.is_some() {
-            break;
-        }
+    let (reps, budget, t0) = (crate::driver::free_reps(), crate::driver::free_budget(), std::time::Instant::now());
+    let mut n = 1;
+    while last.1.is_none() && (n < reps || t0.elapsed() < budget) {
         last = run_free_once(case);
+        n += 1;
     }
     last
 }
